@@ -85,6 +85,89 @@ def norm(b):
     return re.sub(r"\s+", "", b)
 
 
+def cpp_functions(text):
+    """(class, function, body) for every out-of-line member definition `Class::function(...) {...}` of a .cpp file"""
+    res = []
+    for m in re.finditer(r"^(\w+)::(\w+)\s*\(", text, re.M):
+        i, depth = m.end() - 1, 0
+        while i < len(text):
+            if text[i] == "(":
+                depth += 1
+            elif text[i] == ")":
+                depth -= 1
+                if depth == 0:
+                    break
+            i += 1
+        j = i + 1
+        # skip const and a constructor's initialiser list up to the opening brace
+        k = text.find("{", j)
+        semi = text.find(";", j)
+        if k < 0 or (0 <= semi < k):
+            continue
+        depth, e = 0, k
+        while e < len(text):
+            if text[e] == "{":
+                depth += 1
+            elif text[e] == "}":
+                depth -= 1
+                if depth == 0:
+                    break
+            e += 1
+        res.append((m.group(1), m.group(2), text[k + 1:e]))
+    return res
+
+
+def raw_flag_facts():
+    """every function that tests m_nextIsRaw (a consumer) and whether it resets the flag in the tested branch; every
+    function that sets it; the marker strings"""
+    consumers, setters = [], []
+    for fn in ("XalanXMLSerializerBase.cpp", "FormatterToXML.cpp", "FormatterToHTML.cpp", "FormatterToText.cpp"):
+        text = strip_comments(open(os.path.join(XMLS, fn), encoding="utf-8", errors="replace").read())
+        for cls, name, body in cpp_functions(text):
+            b = norm(body)
+            if "m_nextIsRaw" not in b:
+                continue
+            tests = list(re.finditer(r"if\(m_nextIsRaw(==true)?\)\{", b))
+            if tests:
+                ok = True
+                for t in tests:
+                    # the tested branch: up to its matching brace
+                    depth, e = 0, t.end() - 1
+                    while e < len(b):
+                        if b[e] == "{":
+                            depth += 1
+                        elif b[e] == "}":
+                            depth -= 1
+                            if depth == 0:
+                                break
+                        e += 1
+                    if "m_nextIsRaw=false;" not in b[t.end():e]:
+                        ok = False
+                consumers.append((cls, name, ok))
+            if "m_nextIsRaw=true;" in b:
+                setters.append((cls, name))
+            rest = re.sub(r"if\(m_nextIsRaw(==true)?\)|m_nextIsRaw=(true|false);|m_nextIsRaw\(false\)", "", b)
+            if "m_nextIsRaw" in rest:
+                raise ValueError("%s::%s uses m_nextIsRaw in a way the translator does not understand" % (cls, name))
+    fl = strip_comments(open(os.path.join(common.REPO, "src/xalanc/PlatformSupport/FormatterListener.cpp"), encoding="utf-8", errors="replace").read())
+    marker = []
+    for nm in ("s_piTarget", "s_piData"):
+        m = re.search(r"FormatterListener::%s\s*\[\s*\]\s*=\s*\{([^}]*)\}" % nm, fl)
+        if not m:
+            raise ValueError("FormatterListener::%s not found" % nm)
+        toks = [x.strip() for x in m.group(1).split(",") if x.strip()]
+        if toks[-1] != "0":
+            raise ValueError("%s is not 0-terminated" % nm)
+        codes = []
+        for t in toks[:-1]:
+            mm = re.fullmatch(r"XalanUnicode::charLetter_([A-Za-z])", t)
+            if not mm:
+                raise ValueError("unexpected character constant %s in %s" % (t, nm))
+            codes.append(ord(mm.group(1)))
+        marker.append(codes)
+    return consumers, setters, marker
+
+
 def main():
     try:
         src = strip_comments(open(os.path.join(XMLS, "FormatterToXMLUnicode.hpp"), encoding="utf-8", errors="replace").read())
@@ -128,6 +211,7 @@ def main():
         if "chars[i]>m_maxCharacter" not in ftt_chars:
             raise ValueError("FormatterToText::characters no longer tests chars[i] > m_maxCharacter")
         text_reports = "canTranscodeTo(" in ftt_chars and "UnrepresentableCharacterException(" in ftt_chars
+        raw_consumers, raw_setters, raw_marker = raw_flag_facts()
         if "m_indentHandler" not in src:
             raise ValueError("FormatterToXMLUnicode.hpp no longer has an m_indentHandler member")
         cps = [(f, calls_of(body_of(src, f))) for f in FNS]
@@ -170,6 +254,13 @@ def main():
     out.append("def charTable11 : List Nat := [%s]" % ", ".join(map(str, tables["1_1"])))
     out.append("/-- FormatterToText::characters asks the stream whether a character can be transcoded and raises UnrepresentableCharacterException -/")
     out.append("def textReportsUnrepresentable : Bool := %s" % str(text_reports).lower())
+    out.append("/-- every function that tests m_nextIsRaw: (class, function, resets the flag in the tested branch) -/")
+    out.append("def rawFlagConsumers : List (String × String × Bool) := [%s]" % ", ".join('("%s", "%s", %s)' % (a, b, str(c).lower()) for a, b, c in raw_consumers))
+    out.append("/-- every function that sets m_nextIsRaw -/")
+    out.append("def rawFlagSetters : List (String × String) := [%s]" % ", ".join('("%s", "%s")' % (a, b) for a, b in raw_setters))
+    out.append("/-- FormatterListener::s_piTarget / s_piData -/")
+    out.append("def rawMarkerTargetSrc : List Nat := %s" % raw_marker[0])
+    out.append("def rawMarkerDataSrc : List Nat := %s" % raw_marker[1])
     out.append("end XalanModel.Generated.C08")
     txt = "\n".join(out) + "\n"
     os.makedirs(common.GEN, exist_ok=True)
